@@ -627,6 +627,10 @@ class Interp:
                 return self._succ(r, env.canon(e))
             if l[0] == NUM and r[0] == NUM:
                 return (NUM, l[1] + r[1] if op == "+" else l[1] - r[1])
+            if l[0] == ORD or r[0] == ORD:
+                rr0 = self._ord_role(env.canon(e))
+                if rr0 is not None:
+                    return self.role_value(rr0)
             if op == "-" and l[0] == ORD and r[0] == ORD:
                 return (SYM, "duration")
             if l[0] == ORD or r[0] == ORD:
